@@ -58,6 +58,15 @@ pub open spec fn rd(f: Seq<u8>, p: int, acc: Option<Seq<u8>>) -> RdOutcome
     }
 }
 
+/// Header position at which a scan from `p` finds no further complete fragment.  If it is before
+/// the end of the file, the file ends in the middle of a fragment (a torn write).
+pub open spec fn rd_end(f: Seq<u8>, p: int) -> int
+    decreases f.len() - p
+{
+    let h = hdr_pos(p);
+    if p < 0 || !phys_complete(f, h) { h } else { rd_end(f, h + HEADER_LENGTH_BYTES + phys_len(f, h)) }
+}
+
 pub proof fn lemma_hdr_pos(p: int)
     requires 0 <= p
     ensures p <= hdr_pos(p) < p + HEADER_LENGTH_BYTES,
